@@ -304,13 +304,16 @@ pub fn compare(exp: &RefPoint, got: &Point, tol: f64) -> Option<String> {
     None
 }
 
-pub const POSES: [([f64; 4], [f64; 3]); 6] = [
+pub const POSES: [([f64; 4], [f64; 3]); 8] = [
     ([1.0, 0.0, 0.0, 0.0], [0.0, 0.0, 0.0]),
     ([std::f64::consts::FRAC_1_SQRT_2, std::f64::consts::FRAC_1_SQRT_2, 0.0, 0.0], [0.0, 0.0, 0.0]),
     ([std::f64::consts::FRAC_1_SQRT_2, 0.0, std::f64::consts::FRAC_1_SQRT_2, 0.0], [1.0, 2.0, 3.0]),
     ([std::f64::consts::FRAC_1_SQRT_2, 0.0, 0.0, std::f64::consts::FRAC_1_SQRT_2], [0.0, 0.0, 0.0]),
     ([0.5, 0.5, -0.5, 0.5], [-10.0, 0.25, 1e3]),
     ([1.0, 0.0, 0.0, 0.0], [5.0, -6.0, 7.0]),
+    // rotations so small that w rounds to exactly 1 (or -1) while the vector part is not zero
+    ([1.0, 0.0, 0.0, 1e-7], [0.0, 0.0, 0.0]),
+    ([-1.0, 3e-7, 0.0, 0.0], [1.0, 2.0, 3.0]),
 ];
 
 /// Check one cloud of an open reader under one option vector against the reference view of `pts`.
